@@ -498,7 +498,7 @@ func (g *Gen) clientLine(s *gsess) string {
 		params = []string{g.pick([]string{"u", "user", "blah", "u!x@y"}), "0", "*"}
 		hasTrailing, trailing = true, g.pick([]string{"Real Name", "", "r"})
 	case "PASS":
-		hasTrailing, trailing = true, g.pick([]string{"nickserv=pw", "secret", "services=" + SvcPass, "oper=" + OperName + " " + OperPass, "oper=" + OperName + " wrong", "captcha=" + g.captchaLogin(), "oper=op", "a:b:oper=" + OperName + " " + OperPass, "network=x:nickserv=y", "services=wrong"})
+		hasTrailing, trailing = true, g.pick([]string{"nickserv=pw", "secret", "services=" + SvcPass, "oper=" + OperName + " " + OperPass, "oper=" + OperName + " wrong", "oper=" + OperName + " " + OperPass2, "oper=" + OperName2 + " " + OperPass, "captcha=" + g.captchaLogin(), "oper=op", "a:b:oper=" + OperName + " " + OperPass, "network=x:nickserv=y", "services=wrong"})
 	case "TOPIC":
 		params = []string{g.anyChan()}
 		if g.R.Intn(3) != 0 {
@@ -519,7 +519,8 @@ func (g *Gen) clientLine(s *gsess) string {
 		params = []string{g.anyNick()}
 		hasTrailing, trailing = true, g.pick([]string{"bye", "", "spam bot"})
 	case "OPER":
-		params = g.pick2([][]string{{OperName, OperPass}, {OperName2, OperPass2}, {OperName, "bad"}, {"nobody", OperPass}, {OperName}, {OperName, OperPass, "extra"}})
+		params = g.pick2([][]string{{OperName, OperPass}, {OperName2, OperPass2}, {OperName, "bad"}, {"nobody", OperPass}, {OperName}, {OperName, OperPass, "extra"},
+			{OperName, OperPass2}, {OperName2, OperPass}, {strings.ToUpper(OperName), OperPass}, {OperName, ""}})
 	case "SERVER":
 		params = []string{"services.example", "1"}
 		hasTrailing, trailing = true, "services"
@@ -643,6 +644,9 @@ func (g *Gen) linkLine(s *gsess) string {
 	}
 	if pfx == "" || strings.ContainsAny(pfx, " :") {
 		pfx = "ChanServ"
+	}
+	if g.P.Extra && g.R.Intn(6) == 0 {
+		pfx = g.caseVariant(pfx)
 	}
 	cmds := []string{"NICK", "JOIN", "PART", "KICK", "KILL", "MODE", "PRIVMSG", "NOTICE", "QUIT", "SVSHOLD", "SVSJOIN", "SVSPART", "SVSMODE", "SVSNICK", "TOPIC", "INVITE", "PING"}
 	cmd := g.pick(cmds)
@@ -870,7 +874,7 @@ func (g *Gen) scenario() {
 	ch := g.pick([]string{"#s1", "#s2", "#S1", "#s3"})
 	nsc := 11
 	if g.P.Extra {
-		nsc = 17
+		nsc = 18
 	}
 	sc := g.R.Intn(nsc)
 	if sc >= 11 {
@@ -1073,6 +1077,29 @@ func (g *Gen) extraScenario(sc int, a, b *gsess, rs []*gsess) {
 				g.line(a, "NAMES #s6")
 				g.line(b, "NICK "+p)
 				g.makeLink()
+				break
+			}
+		}
+	case 17: // services take a user out of a channel (or put it in); what the user may do there follows
+		for _, s := range g.live() {
+			if s.link && len(s.pseudo) > 0 {
+				p := g.pick(s.pseudo)
+				ch := g.pick([]string{"#s8", "#S8"})
+				g.line(a, "JOIN "+ch)
+				g.line(b, "JOIN "+ch)
+				if g.R.Intn(2) == 0 {
+					g.line(a, "MODE "+ch+" -t")
+				}
+				g.line(s, assemble(p, "SVSPART", []string{b.nick, ch}, false, ""))
+				g.line(b, "TOPIC "+ch+" :set after being removed")
+				g.line(b, "MODE "+ch+" +i")
+				g.line(b, "PRIVMSG "+ch+" :still here?")
+				g.line(a, "NAMES "+ch)
+				g.line(a, "WHOIS "+b.nick)
+				if g.R.Intn(2) == 0 {
+					g.line(s, assemble(p, "SVSJOIN", []string{b.nick, ch}, false, ""))
+					g.line(b, "TOPIC "+ch+" :back")
+				}
 				break
 			}
 		}
